@@ -671,6 +671,7 @@ package otr3
 //@   modifies seclog(c), msglog(c)
 //@   preserves [C18.end.frame,C15.end.frame] c.theirKey, c.version, c.Policies, c.ourCurrentKey, c.theirInstanceTag
 //@   ensures [C18.end.state] c.msgState == plainText && c.ake == nil
+//@   ensures [C07.end.timestamp,C18.end.timestamp] c.lastMessageStateChange.wall == 0 && c.lastMessageStateChange.ext == 0 && c.lastMessageStateChange.loc == nil
 //@   ensures [C18.end.event] (old(c.msgState) == encrypted ==> seclog(c) == evpush(old(seclog(c)), uint64(GoneInsecure))) && (old(c.msgState) != encrypted ==> seclog(c) == old(seclog(c)))
 //@   ensures [C18.end.msg] old(c.msgState) != encrypted ==> (len(toSend) == 0 && err == nil)
 //@   ensures [C08.end.drop] c.keys.ourCurrentDHKeys.priv === nil && c.keys.ourPreviousDHKeys.priv === nil && c.keys.ourCurrentDHKeys.pub == nil && c.keys.ourPreviousDHKeys.pub == nil
@@ -1163,41 +1164,50 @@ package otr3
 // ---------------------------------------------------------------------------
 // receive.go: the Receive entry point (C13, C16, C19)
 // ---------------------------------------------------------------------------
+//@ define fragDone(c) = c.fragmentationContext.currentIndex > 0 && c.fragmentationContext.currentIndex == c.fragmentationContext.currentLen
+
 //@ func (*Conversation).receiveErrorMessage
+//@   preserves [C14.ctx.frame.receiveErrorMessage] c.fragmentationContext.currentIndex, c.fragmentationContext.currentLen, c.fragmentationContext.frag
 //@   requires convOK(c) && len(message) >= 11
 //@   modifies anything
 //@   modifies msglog(c)
 //@ func (*Conversation).receiveQueryMessage
+//@   preserves [C14.ctx.frame.receiveQueryMessage] c.fragmentationContext.currentIndex, c.fragmentationContext.currentLen, c.fragmentationContext.frag
 //@   requires convOK(c)
 //@   modifies anything
 //@   modifies msglog(c), akeWiped(c.ake), akeKeysWiped(c.ake), kmcWiped(addr(c.ake.keys)), keysWiped(addr(c.ake.keys))
 //@ func (*Conversation).receiveTaggedPlaintext
+//@   preserves [C14.ctx.frame.receiveTaggedPlaintext] c.fragmentationContext.currentIndex, c.fragmentationContext.currentLen, c.fragmentationContext.frag
 //@   requires convOK(c)
 //@   modifies anything
 //@   modifies msglog(c), akeWiped(c.ake), akeKeysWiped(c.ake), kmcWiped(addr(c.ake.keys)), keysWiped(addr(c.ake.keys))
 //@ func (*Conversation).receivePlaintext
+//@   preserves [C14.ctx.frame.receivePlaintext] c.fragmentationContext.currentIndex, c.fragmentationContext.currentLen, c.fragmentationContext.frag
 //@   requires c != nil
 //@   modifies anything
 //@   modifies msglog(c)
 //@   ensures [C16.plain.exact] err == nil && len(plain) == len(message) && (forall i in 0..len(message) :: plain[i] == old(message[i]))
 //@ func (*Conversation).receiveEncoded
+//@   preserves [C14.ctx.frame.receiveEncoded] c.fragmentationContext.currentIndex, c.fragmentationContext.currentLen, c.fragmentationContext.frag
 //@   requires convOK(c)
 //@   modifies anything
 //@   modifies macok(nil), mackey(nil), ctrok(nil), commitok(nil), akemacok(nil), sigok(nil), seclog(c), msglog(c), smplog(c), kmcWiped(addr(c.keys)), keysWiped(addr(c.keys)), akeWiped(c.ake), akeKeysWiped(c.ake), kmcWiped(addr(c.ake.keys)), keysWiped(addr(c.ake.keys))
 //@   opaque
 //@ func (*Conversation).toSendEncoded
+//@   preserves [C14.ctx.frame.tosend] c.fragmentationContext.currentIndex, c.fragmentationContext.currentLen, c.fragmentationContext.frag, c.injections.messages
 //@   requires c != nil && (err == nil && len(toSend) > 0 ==> c.version != nil)
 //@   modifies anything
 //@   ensures result0 === plain && result2 == err
 
 //@ func (*Conversation).receiveUnit
-//@   requires convOK(c) && len(c.injections.messages) == 0
+//@   requires convOK(c) && len(c.injections.messages) == 0 && !fragDone(c)
 //@   modifies anything
 //@   modifies macok(nil), mackey(nil), ctrok(nil), commitok(nil), akemacok(nil), sigok(nil), seclog(c), msglog(c), smplog(c), kmcWiped(addr(c.keys)), keysWiped(addr(c.keys)), akeWiped(c.ake), akeKeysWiped(c.ake), kmcWiped(addr(c.ake.keys)), keysWiped(addr(c.ake.keys))
 //@   ensures [C19.injections.flushed] len(c.injections.messages) == 0
-//@   ensures [C16.disabled.recv.a] (!hasPol(c, allowV2) && !hasPol(c, allowV3)) ==> (err == nil && len(toSend) == 0)
-//@   ensures [C16.disabled.recv.b] (!hasPol(c, allowV2) && !hasPol(c, allowV3)) ==> len(plain) == len(m)
-//@   ensures [C16.disabled.recv] (!hasPol(c, allowV2) && !hasPol(c, allowV3)) ==> (forall i in 0..len(m) :: plain[i] == old(m[i]))
+//@   ensures [C14.once,C05.frag.once,C15.frag.once] !fragDone(c)
+//@   ensures [C16.disabled.recv.a] (!old(hasPol(c, allowV2)) && !old(hasPol(c, allowV3))) ==> (err == nil && len(toSend) == 0)
+//@   ensures [C16.disabled.recv.b] (!old(hasPol(c, allowV2)) && !old(hasPol(c, allowV3))) ==> len(plain) == len(m)
+//@   ensures [C16.disabled.recv] (!old(hasPol(c, allowV2)) && !old(hasPol(c, allowV3))) ==> (forall i in 0..len(m) :: plain[i] == old(m[i]))
 //@   decreases ite(forgetFragments, 1, 0)
 
 //@ func (*Conversation).dhCommitMessage
